@@ -1106,18 +1106,3 @@ package geometry
 //@   loop 1 invariant Pos: 0 <= i && i <= len(n.items)
 //@   loop 1 invariant Wide: (ibytes == 1 || ibytes == 2 || ibytes == 4) && (forall k int :: 0 <= k && k < len(n.items) ==> numBytesOf(n.items[k]) <= ibytes)
 //@   loop 1 decreases len(n.items) - i
-
-// ---------------------------------------------------------------- named predicates for the Geometry methods already proved above
-// (naming scheme <recv><Op><Arg>S shared with zz_contracts_api_verif.go; the object layer of package geojson is specified against it)
-//@ spec func pointContainsPointS(p Point, q Point) bool { p == q }
-//@ spec func pointIntersectsPointS(p Point, q Point) bool { p == q }
-//@ spec func pointIntersectsRectS(p Point, o Rect) bool { rectHas(o, p) }
-//@ spec func pointIntersectsLineS(p Point, m *Line) bool { m != nil && lineHas(m, p) }
-//@ spec func pointIntersectsPolyS(p Point, Q *Poly) bool { Q != nil && polyHas(Q, p) }
-//@ spec func rectContainsPointS(r Rect, q Point) bool { rectHas(r, q) }
-//@ spec func rectIntersectsPointS(r Rect, q Point) bool { rectHas(r, q) }
-//@ spec func rectIntersectsRectS(r Rect, o Rect) bool { rectsMeet(r, o) }
-//@ spec func lineContainsPointS(l *Line, q Point) bool { l != nil && lineHas(l, q) }
-//@ spec func lineIntersectsPointS(l *Line, q Point) bool { l != nil && lineHas(l, q) }
-//@ spec func polyContainsPointS(P *Poly, q Point) bool { P != nil && polyHas(P, q) }
-//@ spec func polyIntersectsPointS(P *Poly, q Point) bool { P != nil && polyHas(P, q) }
